@@ -9,117 +9,670 @@ import (
 	"strings"
 )
 
-// Lock programs of package main over MultiEpoch.mu: for every function the ordered events
-// rlock/runlock/lock/unlock and the calls to package functions that (transitively) acquire the lock;
-// `defer`red events are moved to the end in LIFO order.  Calls through function values and interface
-// methods made while the function syntactically holds the lock are emitted as `unknown` unless the
-// static callee is known not to be a package-main function.
+// Lock programs of package main over MultiEpoch.mu (property C09).
+//
+// For every function of package main (and for every `go func(){…}()` literal, which is a thread of its own)
+// the ordered events
+//
+//	rlock / runlock / lock / unlock      operations on MultiEpoch.mu (`defer`red ones moved to the end, LIFO)
+//	call f                               a call to a package-main function that (transitively) acquires the lock
+//	unknown                              something the extractor cannot follow, executed while the lock is held
+//
+// are written to Generated/LockPrograms.lean.  The Lean side inlines `call`, rejects `unknown` and decides that
+// every program is a sequence of non-nested critical sections.
+//
+// What is followed:
+//   - static calls to package-main functions and methods; closure bodies are treated as executed where they are
+//     written (conservative for callbacks), except `go` literals (separate program) ;
+//   - a package-main function or method *mentioned* without being called (method value, callback argument) is treated
+//     as called at that place;
+//   - interface method calls: every named type of package main that implements the interface is a candidate callee;
+//   - calls through function values: resolved when the value comes from a struct field of a package-main type
+//     (directly, by index, or through `for _, fn := range x.field` / `fn := x.field[i]`): the candidates are all
+//     values ever stored into that field anywhere in package main (assignments, append, composite literals);
+//     a field whose address is taken, or a stored value that is not a function name / method value / closure /
+//     nil / make / append of those, is unresolvable;
+//   - everything else called through a value is unresolvable.
+//
+// `unknown` is emitted for an unresolvable call (or a call to a function that transitively contains one) only where
+// it can run while the lock is held: syntactically between an acquire and its release, or anywhere in a function that
+// is itself (transitively) called from such a place.
+//
+// Trusted residue (named in props/C09.json): functions and methods of *other* packages invoked under the lock do not
+// reach MultiEpoch except through package-main function values, closures or values of package-main types with
+// lock-acquiring methods handed to them at the call site (these three cases are followed / flagged); values of
+// package-main types hidden behind an interface-typed argument are not tracked.
 
-type lev struct {
-	kind string // rlock runlock lock unlock call go unknown
-	arg  string
-	pos  token.Pos
+type litem struct {
+	kind       string   // rlock runlock lock unlock call dyn ext
+	callees    []string // call: one callee; dyn: the candidate callees; ext: methods of package-main argument types
+	unresolved bool     // dyn: not (fully) resolvable
+	end        token.Pos
+	held       bool // filled in later: the lock is syntactically held when the item runs
+}
+
+type lfunc struct {
+	name  string
+	items []litem
+}
+
+type lockExtractor struct {
+	info      *types.Info
+	fset      *token.FileSet
+	funcs     map[string]*lfunc
+	litName   map[*ast.FuncLit]string
+	litSeq    map[string]int
+	callFun   map[ast.Expr]bool         // expressions in call position
+	stores    map[*types.Var][]ast.Expr // struct field -> values stored into it
+	badField  map[*types.Var]bool       // field that cannot be tracked (address taken, positional literal)
+	varDefs   map[*types.Var][]ast.Expr // local variable -> expressions assigned to it
+	rangeOf   map[*types.Var]ast.Expr   // range value variable -> ranged expression
+	mainTypes []*types.TypeName         // named non-interface types declared in package main
+	muTotal   int                       // selections of MultiEpoch.mu
+	muKnown   int                       // … of which are the receiver of a recognised Lock/Unlock/RLock/RUnlock call
+	encl      map[*ast.FuncLit]string   // enclosing function name of a literal (for naming)
+}
+
+func unparen(e ast.Expr) ast.Expr {
+	for {
+		p, ok := e.(*ast.ParenExpr)
+		if !ok {
+			return e
+		}
+		e = p.X
+	}
+}
+
+func namedOf(t types.Type) *types.Named {
+	if t == nil {
+		return nil
+	}
+	if pt, ok := t.(*types.Pointer); ok {
+		t = pt.Elem()
+	}
+	n, _ := t.(*types.Named)
+	return n
+}
+
+func isMainObj(o types.Object) bool {
+	return o != nil && o.Pkg() != nil && o.Pkg().Name() == "main"
+}
+
+// funcName gives the table name of a concrete package-main function or method.
+func funcName(fn *types.Func) string {
+	sig := fn.Type().(*types.Signature)
+	if r := sig.Recv(); r != nil {
+		if n := namedOf(r.Type()); n != nil {
+			return n.Obj().Name() + "." + fn.Name()
+		}
+	}
+	return fn.Name()
+}
+
+// recvIface: the interface through which a method is selected — the static type of the receiver expression when it
+// is known (narrower than the interface that declares the method, e.g. ReaderAtCloser rather than io.Closer).
+func (x *lockExtractor) recvIface(e ast.Expr, fn *types.Func) *types.Interface {
+	if sel, ok := unparen(e).(*ast.SelectorExpr); ok {
+		if s, ok := x.info.Selections[sel]; ok && s.Recv() != nil {
+			if it, ok := s.Recv().Underlying().(*types.Interface); ok {
+				return it
+			}
+		}
+	}
+	return fn.Type().(*types.Signature).Recv().Type().Underlying().(*types.Interface)
+}
+
+func isIfaceMethod(fn *types.Func) bool {
+	sig, ok := fn.Type().(*types.Signature)
+	if !ok || sig.Recv() == nil {
+		return false
+	}
+	return types.IsInterface(sig.Recv().Type())
+}
+
+func (x *lockExtractor) isMu(sel *ast.SelectorExpr) bool {
+	inner, ok := unparen(sel.X).(*ast.SelectorExpr)
+	if !ok || inner.Sel.Name != "mu" {
+		return false
+	}
+	n := namedOf(x.info.TypeOf(inner.X))
+	return n != nil && n.Obj().Name() == "MultiEpoch" && isMainObj(n.Obj())
+}
+
+// ifaceCandidates: methods `name` of package-main named types implementing the interface `it`.
+func (x *lockExtractor) ifaceCandidates(it *types.Interface, name string) []string {
+	var out []string
+	seen := map[string]bool{}
+	for _, tn := range x.mainTypes {
+		T := tn.Type()
+		if !types.Implements(T, it) && !types.Implements(types.NewPointer(T), it) {
+			continue
+		}
+		obj, _, _ := types.LookupFieldOrMethod(types.NewPointer(T), true, tn.Pkg(), name)
+		fn, ok := obj.(*types.Func)
+		if !ok || !isMainObj(fn) {
+			continue // promoted from a type of another package
+		}
+		n := funcName(fn)
+		if !seen[n] {
+			seen[n] = true
+			out = append(out, n)
+		}
+	}
+	sort.Strings(out)
+	return out
+}
+
+// fieldOf returns the struct field (of a package-main type) an expression selects, looking through indexing.
+func (x *lockExtractor) fieldOf(e ast.Expr) *types.Var {
+	e = unparen(e)
+	switch v := e.(type) {
+	case *ast.IndexExpr:
+		return x.fieldOf(v.X)
+	case *ast.SliceExpr:
+		return x.fieldOf(v.X)
+	case *ast.SelectorExpr:
+		if fv, ok := x.info.Uses[v.Sel].(*types.Var); ok && fv.IsField() && isMainObj(fv) {
+			return fv
+		}
+	}
+	return nil
+}
+
+// funcValue classifies an expression that yields a function value (or a container of function values):
+// the candidate package-main callees, and whether everything it may denote is known.
+func (x *lockExtractor) funcValue(e ast.Expr, self *types.Var, depth int) (cands []string, ok bool) {
+	if depth > 6 {
+		return nil, false
+	}
+	e = unparen(e)
+	switch v := e.(type) {
+	case *ast.FuncLit:
+		return []string{x.litFunc(v)}, true
+	case *ast.CompositeLit:
+		ok = true
+		for _, el := range v.Elts {
+			if kv, isKV := el.(*ast.KeyValueExpr); isKV {
+				el = kv.Value
+			}
+			c, o := x.funcValue(el, self, depth+1)
+			cands = append(cands, c...)
+			ok = ok && o
+		}
+		return cands, ok
+	case *ast.CallExpr:
+		if id, isId := unparen(v.Fun).(*ast.Ident); isId {
+			if b, isB := x.info.Uses[id].(*types.Builtin); isB {
+				switch b.Name() {
+				case "make", "new":
+					return nil, true
+				case "append":
+					ok = true
+					for _, a := range v.Args {
+						c, o := x.funcValue(a, self, depth+1)
+						cands = append(cands, c...)
+						ok = ok && o
+					}
+					return cands, ok
+				}
+			}
+		}
+		return nil, false
+	case *ast.Ident:
+		switch o := x.info.Uses[v].(type) {
+		case *types.Nil:
+			return nil, true
+		case *types.Func:
+			if isMainObj(o) {
+				return []string{funcName(o)}, true
+			}
+			return nil, true // function of another package
+		case *types.Var:
+			return x.varValue(o, self, depth+1)
+		}
+		return nil, false
+	case *ast.SelectorExpr:
+		switch o := x.info.Uses[v.Sel].(type) {
+		case *types.Func:
+			if isIfaceMethod(o) {
+				return x.ifaceCandidates(x.recvIface(v, o), o.Name()), true
+			}
+			if isMainObj(o) {
+				return []string{funcName(o)}, true
+			}
+			return nil, true // method value of a type of another package
+		case *types.Var:
+			if o.IsField() && isMainObj(o) {
+				if o == self {
+					return nil, true
+				}
+				return x.fieldValue(o, depth+1)
+			}
+		}
+		return nil, false
+	case *ast.IndexExpr:
+		return x.funcValue(v.X, self, depth+1)
+	case *ast.SliceExpr:
+		return x.funcValue(v.X, self, depth+1)
+	}
+	return nil, false
+}
+
+func (x *lockExtractor) fieldValue(f *types.Var, depth int) ([]string, bool) {
+	if x.badField[f] {
+		return nil, false
+	}
+	ok := true
+	var cands []string
+	for _, e := range x.stores[f] {
+		c, o := x.funcValue(e, f, depth+1)
+		cands = append(cands, c...)
+		ok = ok && o
+	}
+	return cands, ok
+}
+
+func (x *lockExtractor) varValue(v *types.Var, self *types.Var, depth int) ([]string, bool) {
+	if r, ok := x.rangeOf[v]; ok {
+		return x.funcValue(r, self, depth+1)
+	}
+	defs := x.varDefs[v]
+	if len(defs) == 0 {
+		return nil, false // parameter, package variable, result of a multi-value assignment …
+	}
+	ok := true
+	var cands []string
+	for _, e := range defs {
+		c, o := x.funcValue(e, self, depth+1)
+		cands = append(cands, c...)
+		ok = ok && o
+	}
+	return cands, ok
+}
+
+// litFunc registers a function literal as a pseudo-function of its own and returns its name.
+func (x *lockExtractor) litFunc(l *ast.FuncLit) string {
+	if n, ok := x.litName[l]; ok {
+		return n
+	}
+	enc := x.encl[l]
+	x.litSeq[enc]++
+	n := fmt.Sprintf("%s$lit%d", enc, x.litSeq[enc])
+	x.litName[l] = n
+	f := &lfunc{name: n}
+	x.funcs[n] = f
+	f.items = x.body(n, l.Body)
+	return n
+}
+
+// classify one call expression (not a mutex operation)
+func (x *lockExtractor) callItem(c *ast.CallExpr) (litem, bool) {
+	fun := unparen(c.Fun)
+	if tv, ok := x.info.Types[fun]; ok && tv.IsType() {
+		return litem{}, false // conversion
+	}
+	var id *ast.Ident
+	switch f := fun.(type) {
+	case *ast.Ident:
+		id = f
+	case *ast.SelectorExpr:
+		id = f.Sel
+	case *ast.FuncLit:
+		return litem{}, false // called where written: its body is walked in place
+	}
+	if id != nil {
+		switch o := x.info.Uses[id].(type) {
+		case *types.Builtin:
+			return litem{}, false
+		case *types.Func:
+			if isIfaceMethod(o) {
+				return litem{kind: "dyn", callees: x.ifaceCandidates(x.recvIface(fun, o), o.Name()), end: c.End()}, true
+			}
+			if isMainObj(o) {
+				return litem{kind: "call", callees: []string{funcName(o)}, end: c.End()}, true
+			}
+			// function of another package: values of package-main types handed to it may be called back
+			var ms []string
+			for _, a := range c.Args {
+				n := namedOf(x.info.TypeOf(a))
+				if n == nil || !isMainObj(n.Obj()) || types.IsInterface(n) {
+					continue
+				}
+				mset := types.NewMethodSet(types.NewPointer(n))
+				for i := 0; i < mset.Len(); i++ {
+					if fn, ok := mset.At(i).Obj().(*types.Func); ok && isMainObj(fn) {
+						ms = append(ms, funcName(fn))
+					}
+				}
+			}
+			if len(ms) > 0 {
+				return litem{kind: "ext", callees: ms, end: c.End()}, true
+			}
+			return litem{}, false
+		}
+	}
+	// call through a function value
+	cands, ok := x.funcValue(fun, nil, 0)
+	return litem{kind: "dyn", callees: dedup(cands), unresolved: !ok, end: c.End()}, true
+}
+
+// body collects the ordered items of one function body.
+func (x *lockExtractor) body(name string, b *ast.BlockStmt) []litem {
+	var evs []litem
+	var deferred [][]litem
+	skipIdent := map[*ast.Ident]bool{}
+	var walk func(n ast.Node, out *[]litem)
+	walk = func(root ast.Node, out *[]litem) {
+		ast.Inspect(root, func(nd ast.Node) bool {
+			switch v := nd.(type) {
+			case *ast.GoStmt:
+				// arguments are evaluated here; the function runs as a thread of its own
+				for _, a := range v.Call.Args {
+					walk(a, out)
+				}
+				if l, ok := unparen(v.Call.Fun).(*ast.FuncLit); ok {
+					x.litFunc(l)
+				} else {
+					// `go f(x)` / `go x.m()`: f is an entry of the table by itself; evaluate the receiver expression
+					if s, ok := unparen(v.Call.Fun).(*ast.SelectorExpr); ok {
+						walk(s.X, out)
+					}
+				}
+				return false
+			case *ast.DeferStmt:
+				for _, a := range v.Call.Args {
+					walk(a, out)
+				}
+				var sub []litem
+				if sel, ok := unparen(v.Call.Fun).(*ast.SelectorExpr); ok && x.isMu(sel) {
+					x.muKnown++
+					x.muTotal++
+					sub = append(sub, litem{kind: strings.ToLower(sel.Sel.Name), end: v.End()})
+				} else if l, ok := unparen(v.Call.Fun).(*ast.FuncLit); ok {
+					sub = x.body(name, l.Body)
+				} else {
+					if it, ok := x.callItem(v.Call); ok {
+						sub = append(sub, it)
+					}
+					if s, ok := unparen(v.Call.Fun).(*ast.SelectorExpr); ok {
+						walk(s.X, out)
+					}
+				}
+				deferred = append(deferred, sub)
+				return false
+			case *ast.CallExpr:
+				if sel, ok := unparen(v.Fun).(*ast.SelectorExpr); ok && x.isMu(sel) {
+					switch sel.Sel.Name {
+					case "Lock", "Unlock", "RLock", "RUnlock":
+						x.muKnown++
+						*out = append(*out, litem{kind: strings.ToLower(sel.Sel.Name), end: v.End()})
+					}
+					return true
+				}
+				if it, ok := x.callItem(v); ok {
+					*out = append(*out, it)
+				}
+				return true
+			case *ast.SelectorExpr:
+				if v.Sel.Name == "mu" {
+					if n := namedOf(x.info.TypeOf(v.X)); n != nil && n.Obj().Name() == "MultiEpoch" && isMainObj(n.Obj()) {
+						x.muTotal++
+					}
+				}
+				if fn, ok := x.info.Uses[v.Sel].(*types.Func); ok {
+					skipIdent[v.Sel] = true
+					if !x.callFun[v] {
+						x.mention(v, fn, v.End(), out)
+					}
+				}
+				return true
+			case *ast.Ident:
+				if skipIdent[v] {
+					return true
+				}
+				if fn, ok := x.info.Uses[v].(*types.Func); ok && !x.callFun[v] {
+					x.mention(v, fn, v.End(), out)
+				}
+				return true
+			}
+			return true
+		})
+	}
+	walk(b, &evs)
+	sort.SliceStable(evs, func(i, j int) bool { return evs[i].end < evs[j].end })
+	for i := len(deferred) - 1; i >= 0; i-- {
+		evs = append(evs, deferred[i]...)
+	}
+	return evs
+}
+
+// a function or method named without being called: treated as called here
+func (x *lockExtractor) mention(e ast.Expr, fn *types.Func, end token.Pos, out *[]litem) {
+	if isIfaceMethod(fn) {
+		if c := x.ifaceCandidates(x.recvIface(e, fn), fn.Name()); len(c) > 0 {
+			*out = append(*out, litem{kind: "dyn", callees: c, end: end})
+		}
+		return
+	}
+	if isMainObj(fn) {
+		*out = append(*out, litem{kind: "call", callees: []string{funcName(fn)}, end: end})
+	}
 }
 
 func genLockPrograms() {
 	p := pkg(".")
+	x := &lockExtractor{info: p.TypesInfo, fset: p.Fset, funcs: map[string]*lfunc{}, litName: map[*ast.FuncLit]string{},
+		litSeq: map[string]int{}, callFun: map[ast.Expr]bool{}, stores: map[*types.Var][]ast.Expr{}, badField: map[*types.Var]bool{},
+		varDefs: map[*types.Var][]ast.Expr{}, rangeOf: map[*types.Var]ast.Expr{}, encl: map[*ast.FuncLit]string{}}
 	info := p.TypesInfo
-	isMu := func(sel *ast.SelectorExpr) bool {
-		inner, ok := sel.X.(*ast.SelectorExpr)
-		if !ok || inner.Sel.Name != "mu" {
-			return false
+	// named types of package main
+	for _, obj := range info.Defs {
+		if tn, ok := obj.(*types.TypeName); ok && isMainObj(tn) && !tn.IsAlias() {
+			if _, isNamed := tn.Type().(*types.Named); isNamed && !types.IsInterface(tn.Type()) {
+				x.mainTypes = append(x.mainTypes, tn)
+			}
 		}
-		t := info.TypeOf(inner.X)
-		if t == nil {
-			return false
-		}
-		if pt, ok := t.(*types.Pointer); ok {
-			t = pt.Elem()
-		}
-		n, ok := t.(*types.Named)
-		return ok && n.Obj().Name() == "MultiEpoch"
 	}
-	progs := map[string][]lev{}
+	sort.Slice(x.mainTypes, func(i, j int) bool { return x.mainTypes[i].Pos() < x.mainTypes[j].Pos() })
+
+	type decl struct {
+		name string
+		fd   *ast.FuncDecl
+	}
+	var decls []decl
+	var files []*ast.File
 	for _, f := range p.Syntax {
-		fname := p.Fset.Position(f.Pos()).Filename
-		if strings.HasSuffix(fname, "_test.go") {
+		if strings.HasSuffix(p.Fset.Position(f.Pos()).Filename, "_test.go") {
 			continue
 		}
+		files = append(files, f)
+	}
+	sort.Slice(files, func(i, j int) bool {
+		return p.Fset.Position(files[i].Pos()).Filename < p.Fset.Position(files[j].Pos()).Filename
+	})
+	// pass 1: stores into fields, definitions of local variables, call positions, enclosing functions of literals
+	for _, f := range files {
 		for _, d := range f.Decls {
 			fd, ok := d.(*ast.FuncDecl)
-			if !ok || fd.Body == nil {
-				continue
-			}
-			name := fd.Name.Name
-			if fd.Recv != nil && len(fd.Recv.List) == 1 {
-				rt := info.TypeOf(fd.Recv.List[0].Type)
-				if pt, ok := rt.(*types.Pointer); ok {
-					rt = pt.Elem()
+			var name string
+			if ok && fd.Body != nil {
+				name = fd.Name.Name
+				if fd.Recv != nil && len(fd.Recv.List) == 1 {
+					if n := namedOf(info.TypeOf(fd.Recv.List[0].Type)); n != nil {
+						name = n.Obj().Name() + "." + name
+					}
 				}
-				if n, ok := rt.(*types.Named); ok {
-					name = n.Obj().Name() + "." + name
-				}
+				decls = append(decls, decl{name, fd})
+			} else {
+				name = "<package>"
 			}
-			var evs, deferred []lev
-			ast.Inspect(fd.Body, func(nd ast.Node) bool {
-				switch x := nd.(type) {
-				case *ast.GoStmt:
-					// a new goroutine does not run nested in this thread
-					return false
+			ast.Inspect(d, func(nd ast.Node) bool {
+				switch v := nd.(type) {
 				case *ast.FuncLit:
-					// closure bodies: treated as executed in place (conservative for callbacks run under the lock)
-					return true
-				case *ast.DeferStmt:
-					if sel, ok := x.Call.Fun.(*ast.SelectorExpr); ok && isMu(sel) {
-						deferred = append(deferred, lev{strings.ToLower(sel.Sel.Name), "", x.Pos()})
-						return false
-					}
-					if id := calleeName(info, x.Call); id != "" {
-						deferred = append(deferred, lev{"call", id, x.Pos()})
-					}
-					return false
+					x.encl[v] = name
 				case *ast.CallExpr:
-					if sel, ok := x.Fun.(*ast.SelectorExpr); ok && isMu(sel) {
-						evs = append(evs, lev{strings.ToLower(sel.Sel.Name), "", x.Pos()})
+					x.callFun[unparen(v.Fun)] = true
+					if s, ok := unparen(v.Fun).(*ast.SelectorExpr); ok {
+						x.callFun[s.Sel] = true
+					}
+				case *ast.AssignStmt:
+					for i, l := range v.Lhs {
+						var rhs ast.Expr
+						if len(v.Rhs) == len(v.Lhs) {
+							rhs = v.Rhs[i]
+						}
+						if fv := x.fieldOf(l); fv != nil {
+							if rhs == nil {
+								x.badField[fv] = true
+							} else {
+								x.stores[fv] = append(x.stores[fv], rhs)
+							}
+						}
+						if id, ok := unparen(l).(*ast.Ident); ok {
+							var lv *types.Var
+							if o, ok := info.Defs[id].(*types.Var); ok {
+								lv = o
+							} else if o, ok := info.Uses[id].(*types.Var); ok {
+								lv = o
+							}
+							if lv != nil && !lv.IsField() {
+								if rhs == nil {
+									x.varDefs[lv] = append(x.varDefs[lv], &ast.BadExpr{})
+								} else {
+									x.varDefs[lv] = append(x.varDefs[lv], rhs)
+								}
+							}
+						}
+					}
+				case *ast.ValueSpec:
+					for i, id := range v.Names {
+						if lv, ok := info.Defs[id].(*types.Var); ok && len(v.Values) == len(v.Names) {
+							x.varDefs[lv] = append(x.varDefs[lv], v.Values[i])
+						}
+					}
+				case *ast.RangeStmt:
+					if id, ok := v.Value.(*ast.Ident); ok && id != nil {
+						if lv, ok := info.Defs[id].(*types.Var); ok {
+							x.rangeOf[lv] = v.X
+						} else if lv, ok := info.Uses[id].(*types.Var); ok {
+							x.varDefs[lv] = append(x.varDefs[lv], &ast.BadExpr{})
+						}
+					}
+				case *ast.UnaryExpr:
+					if v.Op == token.AND {
+						if fv := x.fieldOf(v.X); fv != nil {
+							{
+								x.badField[fv] = true
+							}
+						}
+					}
+				case *ast.CompositeLit:
+					n := namedOf(info.TypeOf(v))
+					if n == nil || !isMainObj(n.Obj()) {
 						return true
 					}
-					if id := calleeName(info, x); id != "" {
-						evs = append(evs, lev{"call", id, x.Pos()})
+					st, ok := n.Underlying().(*types.Struct)
+					if !ok {
+						return true
+					}
+					for i, el := range v.Elts {
+						if kv, ok := el.(*ast.KeyValueExpr); ok {
+							if id, ok := kv.Key.(*ast.Ident); ok {
+								if fv, ok := info.Uses[id].(*types.Var); ok && fv.IsField() {
+									x.stores[fv] = append(x.stores[fv], kv.Value)
+								}
+							}
+						} else if i < st.NumFields() {
+							x.stores[st.Field(i)] = append(x.stores[st.Field(i)], el)
+						}
 					}
 				}
 				return true
 			})
-			sort.SliceStable(evs, func(i, j int) bool { return evs[i].pos < evs[j].pos })
-			for i := len(deferred) - 1; i >= 0; i-- {
-				evs = append(evs, deferred[i])
-			}
-			progs[name] = evs
 		}
 	}
-	acq := map[string]bool{}
-	for n, evs := range progs {
-		for _, e := range evs {
-			if e.kind == "rlock" || e.kind == "lock" {
-				acq[n] = true
+	// `&x.mu`-style address-taking of func-typed fields only matters for func fields; keep badField only for those
+	for fv := range x.badField {
+		if !holdsFuncs(fv.Type(), 0) {
+			delete(x.badField, fv)
+		}
+	}
+	// pass 2: items of every declared function (literals are registered on the way)
+	for _, d := range decls {
+		f := &lfunc{name: d.name}
+		if old, dup := x.funcs[d.name]; dup {
+			f = old // e.g. several init functions: concatenate
+		} else {
+			x.funcs[d.name] = f
+		}
+		f.items = append(f.items, x.body(d.name, d.fd.Body)...)
+	}
+	if x.muTotal != x.muKnown {
+		fails = append(fails, fmt.Sprintf("MultiEpoch.mu is used %d times but only %d uses are plain Lock/Unlock/RLock/RUnlock calls (aliasing, TryLock, …)", x.muTotal, x.muKnown))
+	}
+	funcs := x.funcs
+	// syntactic "lock is held" flag of every item
+	for _, f := range funcs {
+		depth := 0
+		for i := range f.items {
+			it := &f.items[i]
+			switch it.kind {
+			case "rlock", "lock":
+				it.held = depth > 0
+				depth++
+			case "runlock", "unlock":
+				if depth > 0 {
+					depth--
+				}
+			default:
+				it.held = depth > 0
 			}
 		}
 	}
+	// summaries: acq (transitively acquires), unk (transitively contains an unresolvable call),
+	// ctx (may run while a caller holds the lock)
+	acq, unk, ctx := map[string]bool{}, map[string]bool{}, map[string]bool{}
 	for changed := true; changed; {
 		changed = false
-		for n, evs := range progs {
-			if acq[n] {
-				continue
+		set := func(m map[string]bool, k string) {
+			if !m[k] {
+				m[k] = true
+				changed = true
 			}
-			for _, e := range evs {
-				if e.kind == "call" && acq[e.arg] {
-					acq[n] = true
-					changed = true
+		}
+		for n, f := range funcs {
+			for _, it := range f.items {
+				switch it.kind {
+				case "rlock", "lock":
+					set(acq, n)
+				case "dyn":
+					if it.unresolved {
+						set(unk, n)
+					}
+				}
+				for _, c := range it.callees {
+					if _, known := funcs[c]; !known {
+						continue
+					}
+					if it.kind != "ext" {
+						if acq[c] {
+							set(acq, n)
+						}
+						if unk[c] {
+							set(unk, n)
+						}
+					} else if acq[c] || unk[c] {
+						set(unk, n) // handed to foreign code: may or may not be called
+					}
+					if it.held || ctx[n] {
+						set(ctx, c)
+					}
 				}
 			}
 		}
 	}
 	var names []string
-	for n := range progs {
+	for n := range funcs {
 		if acq[n] {
 			names = append(names, n)
 		}
@@ -132,7 +685,7 @@ func genLockPrograms() {
 	var b strings.Builder
 	b.WriteString("-- GENERATED by /verif/harness/extract from /repo's working tree. Do not edit.\nnamespace Generated\n\n")
 	b.WriteString("inductive LEv where\n  | rlock | runlock | lock | unlock | call (f : Nat) | unknown\nderiving DecidableEq, Repr\n\n")
-	b.WriteString("/-- functions of package main that (transitively) acquire MultiEpoch.mu; index = id used by `.call` -/\ndef lockFnNames : List String := [\n")
+	b.WriteString("/-- functions of package main that (transitively) acquire MultiEpoch.mu; index = id used by `.call`\n    (`f$litN` = a function literal inside f that runs as its own goroutine or is stored as a callback) -/\ndef lockFnNames : List String := [\n")
 	for i, n := range names {
 		sep := ","
 		if i == len(names)-1 {
@@ -143,7 +696,7 @@ func genLockPrograms() {
 	b.WriteString("]\n\n/-- does the function touch the mutex itself (as opposed to only through callees) -/\ndef lockDirect : List Bool := [")
 	for i, n := range names {
 		direct := false
-		for _, e := range progs[n] {
+		for _, e := range funcs[n].items {
 			if e.kind == "rlock" || e.kind == "lock" {
 				direct = true
 			}
@@ -156,13 +709,29 @@ func genLockPrograms() {
 	b.WriteString("]\n\ndef lockPrograms : List (List LEv) := [\n")
 	for i, n := range names {
 		var parts []string
-		for _, e := range progs[n] {
+		for _, e := range funcs[n].items {
+			danger := e.held || ctx[n]
 			switch e.kind {
 			case "rlock", "lock", "runlock", "unlock":
 				parts = append(parts, "."+e.kind)
-			case "call":
-				if acq[e.arg] {
-					parts = append(parts, fmt.Sprintf(".call %d", id[e.arg]))
+			case "call", "dyn":
+				for _, c := range e.callees {
+					if acq[c] {
+						parts = append(parts, fmt.Sprintf(".call %d", id[c]))
+					}
+					if unk[c] && danger {
+						parts = append(parts, ".unknown")
+					}
+				}
+				if e.unresolved && danger {
+					parts = append(parts, ".unknown")
+				}
+			case "ext":
+				for _, c := range e.callees {
+					if (acq[c] || unk[c]) && danger {
+						parts = append(parts, ".unknown")
+						break
+					}
 				}
 			}
 		}
@@ -176,30 +745,35 @@ func genLockPrograms() {
 	write("LockPrograms.lean", b.String())
 }
 
-func calleeName(info *types.Info, c *ast.CallExpr) string {
-	var id *ast.Ident
-	switch f := c.Fun.(type) {
-	case *ast.Ident:
-		id = f
-	case *ast.SelectorExpr:
-		id = f.Sel
-	default:
-		return ""
+// holdsFuncs: the type is a function type or a container of function values
+func holdsFuncs(t types.Type, depth int) bool {
+	if depth > 4 {
+		return false
 	}
-	obj := info.Uses[id]
-	fn, ok := obj.(*types.Func)
-	if !ok || fn.Pkg() == nil || fn.Pkg().Name() != "main" {
-		return ""
+	switch u := t.Underlying().(type) {
+	case *types.Signature:
+		return true
+	case *types.Slice:
+		return holdsFuncs(u.Elem(), depth+1)
+	case *types.Array:
+		return holdsFuncs(u.Elem(), depth+1)
+	case *types.Map:
+		return holdsFuncs(u.Elem(), depth+1)
+	case *types.Pointer:
+		return holdsFuncs(u.Elem(), depth+1)
 	}
-	sig := fn.Type().(*types.Signature)
-	if r := sig.Recv(); r != nil {
-		t := r.Type()
-		if pt, ok := t.(*types.Pointer); ok {
-			t = pt.Elem()
+	return false
+}
+
+func dedup(in []string) []string {
+	seen := map[string]bool{}
+	var out []string
+	for _, s := range in {
+		if !seen[s] {
+			seen[s] = true
+			out = append(out, s)
 		}
-		if n, ok := t.(*types.Named); ok {
-			return n.Obj().Name() + "." + fn.Name()
-		}
 	}
-	return fn.Name()
+	sort.Strings(out)
+	return out
 }
